@@ -8,7 +8,7 @@ CONSTANTS
     MaxN = 6
     Ks = {2}
     MaxIters = {3}
-    LCM = 60
+    FullLayer = FALSE
     RowSum = 3
     ShowSwap = TRUE
     ShowEmpty = FALSE
